@@ -320,6 +320,9 @@ for b in (base1, base2):
                 if not with_prev:
                     sc["prev"] = None
                 go(sc, "clean", "success")
+OLD_LONG = b"<!-- the output of an earlier, larger ceremony -->\n" + b"<x>" + b"0123456789abcdef" * 20000 + b"</x>\n"
+for b in (base1, base2):
+    go(dict(b, out_existing=OLD_LONG), "clean-over-longer-file", "success")
 go(dict(base1, via_main=True), "clean-main", "success")
 go(dict(base1, via_main=True, force=False, answer="Yes", out_existing=OLD), "clean-main", "success")
 # ---- B. confirmation strings
